@@ -145,6 +145,11 @@ pub fn enumerate_damages(w: &World, seed: u64, include_tails: bool, include_head
         for k in [DamageKind::Delete, DamageKind::TruncateZero, DamageKind::TruncateHalf, DamageKind::Garbage] {
             out.push((p.clone(), k, r.next_u64()));
         }
+        if flips_everywhere && p.contains("/i/") && !bytes.is_empty() {
+            for _ in 0..flips.max(3) {
+                out.push((p.clone(), DamageKind::HunkField, r.next_u64()));
+            }
+        }
         if (p.starts_with("d/") || flips_everywhere) && !bytes.is_empty() {
             for _ in 0..flips {
                 out.push((p.clone(), DamageKind::BitFlip, r.next_u64()));
